@@ -110,9 +110,13 @@ const CONVERSE: &[Converse] = &[
     Converse {
         name: "alias",
         ext: Extensions::COMPONENT_ALIAS,
-        variants: &["@white wine|wine{}", "@white wine|wine{1%l}", "#big pot|pot{}", "~low|high heat{5%min}"],
+        variants: &["@white wine|wine{}", "@white wine|wine{1%l}", "#big pot|pot{}", "~low|high heat{5%min}", "@half|and|half{1%cup}", "#jug|pitcher|carafe{}", "@a||b{}"],
         check: |r, v| {
-            if v.starts_with('~') {
+            if v.matches('|').count() > 1 {
+                let name = v[1..].split('{').next().unwrap();
+                let found = if v.starts_with('#') { r.cookware.iter().any(|c| c.name == name && c.alias.is_none()) } else { r.ingredients.iter().any(|i| i.name == name && i.alias.is_none()) };
+                if found { Ok(()) } else { Err(format!("no component named {name:?} (every `|` stays in the name)")) }
+            } else if v.starts_with('~') {
                 r.timers.iter().find(|t| t.name.as_deref() == Some("low|high heat")).map(|_| ()).ok_or_else(|| format!("timer name should keep the `|`; timers {:?}", r.timers.iter().map(|t| &t.name).collect::<Vec<_>>()))
             } else if v.starts_with('#') {
                 let c = r.cookware.iter().find(|c| c.name == "big pot|pot").ok_or("cookware name should keep the `|`")?;
